@@ -187,3 +187,7 @@ func (e errorSessionStore) Put(key string, value interface{}, options ...Session
 func (e errorSessionStore) GetAndDelete(key string, target interface{}) error {
 	return e.err
 }
+
+func (e errorSessionStore) PutIfAbsent(key string, value interface{}, options ...SessionOption) (bool, error) {
+	return false, e.err
+}
